@@ -13,9 +13,12 @@ Drop(s, I) == SelectSeq([i \in DOMAIN s |-> <<i, s[i]>>], LAMBDA p : p[1] \notin
 Without(s, I) == LET d == Drop(s, I) IN [j \in DOMAIN d |-> d[j][2]]
 
 \* well-formedness of an observed state for its kind (C01 "exactly once", C02 order, C10 one-to-one)
-OneKeyEach(cfg, s) == \A i, j \in DOMAIN s : KeyEq(cfg, K(s[i]), K(s[j])) => i = j
+\* what the kind's key / value equality looks at (Go == or the comparator's rank)
+KKey(cfg, k) == IF cfg.sorted THEN Rank(cfg.cmp, k) ELSE k
+VKey(cfg, v) == IF cfg.vsorted THEN Rank(cfg.vcmp, v) ELSE v
+OneKeyEach(cfg, s) == Cardinality({KKey(cfg, K(s[i])) : i \in DOMAIN s}) = Len(s)      \* no two entries with KeyEq keys
 SortedOK(cfg, s)   == cfg.sorted => Ascending(cfg.cmp, Keys(s))
-OneToOne(cfg, s)   == cfg.bidi => \A i, j \in DOMAIN s : (i \in VHits(cfg, s, V(s[j]))) => i = j
+OneToOne(cfg, s)   == cfg.bidi => Cardinality({VKey(cfg, V(s[i])) : i \in DOMAIN s}) = Len(s)   \* no two entries with equal values
 
 \* Put on a plain map: replace in place (either representative of comparator-equal keys), or insert
 \* at the sorted position / at the end (linked) / anywhere (hash).
@@ -32,11 +35,13 @@ PutAllowed(cfg, s, k, v, post) ==
 RemoveAllowed(cfg, s, k, post) == post = Without(s, Hits(cfg, s, k))      \* absent key: unchanged
 \* bidi Put: first drop the pair of k and the pair of v, then add <<k,v>> (C10)
 BidiPutAllowed(cfg, s, k, v, post) ==
-  LET rest == Without(s, Hits(cfg, s, k) \cup VHits(cfg, s, v)) IN
+  LET hk   == Hits(cfg, s, k)
+      hv   == VHits(cfg, s, v)
+      rest == Without(s, hk \cup hv)
+      ks   == {k} \cup {K(s[i]) : i \in hk}
+      vs   == {v} \cup {V(s[i]) : i \in hv} IN
   /\ Len(post) = Len(rest) + 1
-  /\ \E p \in DOMAIN post : K(post[p]) \in ({k} \cup {K(s[i]) : i \in Hits(cfg, s, k)})
-                            /\ V(post[p]) \in ({v} \cup {V(s[i]) : i \in VHits(cfg, s, v)})
-                            /\ Without(post, {p}) = rest
+  /\ \E p \in DOMAIN post : K(post[p]) \in ks /\ V(post[p]) \in vs /\ Without(post, {p}) = rest
 \* for hash kinds the observed enumeration order is arbitrary: compare as sets of pairs
 SameMap(cfg, s, t) == IF cfg.sorted \/ cfg.linked THEN s = t ELSE AsSet(s) = AsSet(t) /\ Len(s) = Len(t)
 
